@@ -165,6 +165,11 @@ impl Scenario for Token {
             v.push(exec(format!("burn({},1)", s), s, t, json!({"burn":{"amount":"1"}}), &[]));
         }
         v.push(exec("mint(hub->alice,0)".into(), HUB, t, json!({"mint":{"recipient":ALICE,"amount":"0"}}), &[]));
+        // the hub may burn its own holdings only: one unit more than it holds must fail (and burn nobody else's tokens)
+        let hb = bal(HUB);
+        if hb > 0 {
+            v.push(exec(format!("burn(hub,all+1={})", hb + 1), HUB, t, json!({"burn":{"amount":(hb + 1).to_string()}}), &[]));
+        }
         // allowances with every expiration shape
         let now_h = c.height;
         let now_t = (c.time as u128) * 1_000_000_000;
